@@ -31,6 +31,7 @@ THEOREMS = [
     "PV.C05.indent_dedent_at_line_start",
     "PV.C05.nonlogical_newline_placement",
     "PV.C05.spelling_table_eq",
+    "PV.C05.default_gaps_line_breaks",
 ]
 TRUSTED = [
     "Lean 4.33.0 kernel; axioms limited to propext, Classical.choice, Quot.sound",
@@ -50,10 +51,11 @@ PARTIAL = [
     "float / imaginary tokens: the theorem says the token's numeral is the literal's text with underscores removed "
     "and the exponent marker lower-cased; that f64::from_str rounds this numeral correctly is trusted "
     "(compared bit-for-bit with CPython float() on every run)",
-    "that the line breaks lying in gaps of the DEFAULT lexer are only those inside brackets or of blank lines is "
-    "obtained by combining gaps_are_trivia, full_lexer_tiles, nonlogical_newline_placement and "
-    "PV.C10.full_lexer_filter (they are exactly the NonLogicalNewline tokens of the full lexer); the combination is "
-    "not packaged as a single Lean theorem",
+    "default_gaps_line_breaks packages \"which line breaks the DEFAULT lexer leaves in gaps\" (combination of full_lexer_tiles, "
+    "nonlogical_newline_placement, token_text_spells and PV.C10.full_lexer_filter): every line break not covered by a token is a "
+    "backslash join, or stands at bracket depth > 0, or on a line without a token so far. The exemption of backslash joins is by "
+    "shape (a line-break character directly behind a backslash; the LF of backslash CR LF), not by lexer state: a comment-only or "
+    "bracketed line ending in a backslash is exempted although the theorem's other two alternatives would cover it",
 ]
 READY = True
 TECHNIQUE = ("Lean 4 theorems over a hand-written character-level model of the lexer + exhaustive/random/real-program "
